@@ -546,3 +546,176 @@ def r_convexweights(idx, rep, modules, rule="R-CONVEXWEIGHTS", floor=1):
                             "the weights `%s` of the mean `%s` are normalised by `%s`, not by their sum: they do not sum to one, so the result is not the weighted centre of the rows of `%s` "
                             "but that centre scaled about the coordinate origin (by sum(x) / %s) — e.g. equal potentials on a tetrahedron give 2 x centroid with the Euclidean norm"
                             % (u(wd)[:60], u(c)[:50], u(Dd)[:40], P.id, u(Dd)[:30]))
+
+
+# ---------------------------------------------------------------------------------------------------------------------- R-AXISUNIFORM
+def _axis_terms(chain):
+    """for a boolean chain of comparisons over box-like arrays `X[k, c]`: {axis k: sorted normalised terms}, or None when a term does not name exactly one axis"""
+    import re
+    groups = {}
+    for t in chain:
+        if not isinstance(t, ast.Compare):
+            return None
+        axes = set()
+        two_d = False
+        for n in ast.walk(t):
+            if isinstance(n, ast.Subscript):
+                if isinstance(n.slice, ast.Tuple) and len(n.slice.elts) >= 2 and all(isinstance(const(e), int) for e in n.slice.elts[-2:]):
+                    axes.add(const(n.slice.elts[-2]))          # `X[k, c]`, also `X[i, k, c]` (a row alias `x = X[i]` is analysed in its direct form)
+                    two_d = True
+                elif isinstance(const(n.slice), int) and not isinstance(const(n.slice), bool):
+                    axes.add(const(n.slice))
+        if len(axes) != 1 or not two_d:
+            return None
+        k = axes.pop()
+        txt = u(t)
+        txt = re.sub(r"\b%d, (\d+)\]" % k, r"K, \1]", txt)
+        txt = re.sub(r"\[%d\]" % k, "[K]", txt)
+        groups.setdefault(k, []).append(txt)
+    return {k: sorted(v) for k, v in groups.items()}
+
+
+def r_axisuniform(idx, rep, modules, rule="R-AXISUNIFORM", floor=1):
+    rep.rule(rule, "a hand-unrolled per-axis test over boxes (`a[0, 0] <= b[0, 1] and a[0, 1] >= b[0, 0] and a[1, 0] <= ...`) treats the three axes alike: with the axis index "
+                   "replaced by K the groups of terms for axis 0, 1 and 2 are the same.  One axis tested with another column / another operand is a copy-paste slip that "
+                   "makes the test wrong for boxes that differ along that axis only", floor=floor)
+    for mname in modules:
+        m = idx.module(mname)
+        for f in sorted(m.functions.values(), key=lambda f: f.key):
+            seen = set()
+            for c in ast.walk(f.node):
+                if not (isinstance(c, ast.BoolOp) and len(c.values) >= 6) or id(c) in seen:
+                    continue
+                g = _axis_terms(c.values)
+                if g is None or set(g) != {0, 1, 2}:
+                    continue
+                key = "%s|per-axis chain `%s`" % (f.key, u(c)[:60])
+                where = "%s:%d" % (f.module.relpath, c.lineno)
+                if g[0] == g[1] == g[2]:
+                    rep.ok(rule, key, where, "%d terms per axis" % len(g[0]))
+                else:
+                    odd = [k for k in (0, 1, 2) if sum(g[k] == g[j] for j in (0, 1, 2)) == 1]
+                    k = odd[0] if len(odd) == 1 else 2
+                    rep.bad(rule, key, where, "the terms for axis %d are %s, for the other axes %s: the axes are not treated alike — boxes that differ only along axis %d are "
+                                              "classified wrongly" % (k, g[k], g[(k + 1) % 3], k))
+
+
+# ---------------------------------------------------------------------------------------------------------------------- R-TWOSIDED
+def r_twosided(idx, rep, modules, rule="R-TWOSIDED", floor=1):
+    rep.rule(rule, "a containment predicate of a FLAT shape rejects points off the shape's plane on both sides: the signed plane distance `(p - c) . n` is compared with the "
+                   "tolerance through its absolute value (or by a two-sided test)", floor=floor)
+    for mname in modules:
+        m = idx.module(mname)
+        for f in sorted(m.functions.values(), key=lambda f: f.key):
+            for c in ast.walk(f.node):
+                if not (isinstance(c, ast.Compare) and len(c.ops) == 1 and isinstance(c.ops[0], (ast.Gt, ast.GtE, ast.Lt, ast.LtE))):
+                    continue
+                big, small = (c.left, c.comparators[0]) if isinstance(c.ops[0], (ast.Gt, ast.GtE)) else (c.comparators[0], c.left)
+                if "EPSILON" not in u(small) and "eps" not in u(small).lower() and "tol" not in u(small).lower():
+                    continue
+                inner, absolute = big, False
+                while isinstance(inner, ast.Call) and (call_name(inner) or "") in ("np.abs", "abs", "np.fabs", "np.absolute") and inner.args:
+                    inner, absolute = inner.args[0], True
+                d = resolved(f.node, inner) if isinstance(inner, ast.Name) else inner
+                while isinstance(d, ast.Call) and (call_name(d) or "") in ("np.abs", "abs", "np.fabs", "np.absolute") and d.args:
+                    d, absolute = d.args[0], True
+                ops = None
+                if isinstance(d, ast.Call) and isinstance(d.func, ast.Attribute) and d.func.attr == "dot" and len(d.args) == 1 and u(d.func.value) != "np":
+                    ops = [d.func.value, d.args[0]]
+                elif isinstance(d, ast.Call) and (call_name(d) or "") == "np.dot" and len(d.args) == 2:
+                    ops = list(d.args)
+                if ops is None or not any("normal" in u(o).lower() for o in ops):
+                    continue
+                key = "%s|plane distance test `%s`" % (f.key, u(c)[:70])
+                where = "%s:%d" % (f.module.relpath, c.lineno)
+                if absolute:
+                    rep.ok(rule, key, where, "absolute value")
+                else:
+                    # a second comparison of the same quantity against the negated tolerance makes the test two-sided
+                    other = [x for x in ast.walk(f.node) if isinstance(x, ast.Compare) and x is not c and u(inner) in u(x) and "-" in u(x)]
+                    if other:
+                        rep.unknown(rule, key, where, "no absolute value; a second test `%s` may cover the other side" % u(other[0])[:60])
+                    else:
+                        rep.bad(rule, key, where, "`%s` compares the SIGNED distance `%s` to the plane with the tolerance: points on the side opposite to the normal are never "
+                                                  "rejected, however far from the plane they are — the flat shape contains a half-infinite prism" % (u(c)[:80], u(d)[:50]))
+
+
+# ---------------------------------------------------------------------------------------------------------------------- R-DISTINCT
+def r_distinct(idx, rep, modules, rule="R-DISTINCT", floor=0):
+    rep.rule(rule, "two points are different when ANY coordinate differs: a per-coordinate distinctness test `abs(p[k] - q[k]) > eps` over several k is joined by `or` (or is a norm / "
+                   "maximum of the difference).  Joined by `and` it asks for a difference in EVERY coordinate: points that share one coordinate are taken for duplicates", floor=floor)
+    for mname in modules:
+        m = idx.module(mname)
+        for f in sorted(m.functions.values(), key=lambda f: f.key):
+            for c in ast.walk(f.node):
+                if not (isinstance(c, ast.BoolOp) and len(c.values) >= 2):
+                    continue
+                terms = []
+                for t in c.values:
+                    if isinstance(t, ast.Compare) and len(t.ops) == 1 and isinstance(t.ops[0], (ast.Gt, ast.GtE)) and isinstance(t.left, ast.Call) \
+                            and (call_name(t.left) or "") in ("abs", "np.abs", "np.fabs", "math.fabs") and t.left.args \
+                            and isinstance(t.left.args[0], ast.BinOp) and isinstance(t.left.args[0].op, ast.Sub):
+                        a, b = t.left.args[0].left, t.left.args[0].right
+                        if isinstance(a, ast.Subscript) and isinstance(b, ast.Subscript) and u(a.value) == u(b.value):
+                            ka = a.slice.elts[-1] if isinstance(a.slice, ast.Tuple) else a.slice
+                            kb = b.slice.elts[-1] if isinstance(b.slice, ast.Tuple) else b.slice
+                            if isinstance(const(ka), int) and const(ka) == const(kb):
+                                terms.append(const(ka))
+                if len(terms) < 2 or len(set(terms)) < 2 or len(terms) != len(c.values):
+                    continue
+                key = "%s|per-coordinate distinctness `%s`" % (f.key, u(c)[:60])
+                where = "%s:%d" % (f.module.relpath, c.lineno)
+                if isinstance(c.op, ast.Or):
+                    rep.ok(rule, key, where, "any coordinate")
+                else:
+                    rep.bad(rule, key, where, "`%s` keeps a point only when it differs from its predecessor in EVERY one of the coordinates %s: a vertex that shares one coordinate "
+                                              "with the previous vertex (an edge parallel to a basis axis) is dropped as a duplicate" % (u(c)[:90], sorted(set(terms))))
+
+
+# ---------------------------------------------------------------------------------------------------------------------- R-AXISSCALE
+def _rotation_of(f, e):
+    """(pose name, transposed?) when e is `P[:3, :3]`, `P[:3, :3].T`, `np.transpose(P[:3, :3])` or a local bound to one of them"""
+    if isinstance(e, ast.Name):
+        e = resolved(f.node, e) or e
+    tr = False
+    while True:
+        if isinstance(e, ast.Attribute) and e.attr == "T":
+            e, tr = e.value, not tr
+        elif isinstance(e, ast.Call) and (call_name(e) or "") == "np.transpose" and len(e.args) == 1:
+            e, tr = e.args[0], not tr
+        else:
+            break
+    if isinstance(e, ast.Subscript) and isinstance(e.slice, ast.Tuple) and len(e.slice.elts) == 2 and all(isinstance(x, ast.Slice) and const(x.upper) == 3 and x.lower is None for x in e.slice.elts) \
+            and isinstance(e.value, (ast.Name, ast.Attribute)) and "2" in u(e.value).split(".")[-1]:
+        return u(e.value), tr
+    return None
+
+
+def r_axisscale(idx, rep, modules, rule="R-AXISSCALE", floor=0):
+    rep.rule(rule, "per-axis sizes of a shape scale the shape's OWN axes: in a broadcast product of the rotation block R = pose[:3, :3] (columns = the shape's axes in the world) "
+                   "with a size vector s, `R * s` scales the columns — right — and `R.T * s` scales the columns of the transpose, i.e. the WORLD axes; the transposed block needs "
+                   "`R.T * s[:, np.newaxis]`", floor=floor)
+    for mname in modules:
+        m = idx.module(mname)
+        for f in sorted(m.functions.values(), key=lambda f: f.key):
+            for c in ast.walk(f.node):
+                if not (isinstance(c, ast.BinOp) and isinstance(c.op, ast.Mult)):
+                    continue
+                for R, s in ((c.left, c.right), (c.right, c.left)):
+                    r = _rotation_of(f, R)
+                    if r is None:
+                        continue
+                    column_vector = isinstance(s, ast.Subscript) and isinstance(s.slice, ast.Tuple) and len(s.slice.elts) == 2 and isinstance(s.slice.elts[0], ast.Slice) \
+                        and u(s.slice.elts[1]) in ("np.newaxis", "None")
+                    base = s.value if column_vector else s
+                    if not (isinstance(base, ast.Name) and any(w in base.id.lower() for w in ("size", "length", "radii", "extent", "scale"))):
+                        continue
+                    key = "%s|axis scaling `%s`" % (f.key, u(c)[:60])
+                    where = "%s:%d" % (f.module.relpath, c.lineno)
+                    scales_columns = not column_vector
+                    if scales_columns != r[1]:          # R * s (columns of R) or R.T * s[:, None] (rows of R.T = columns of R)
+                        rep.ok(rule, key, where, "scales the shape's own axes")
+                    else:
+                        rep.bad(rule, key, where, "`%s` scales the %s of %s%s by the per-axis sizes `%s`: that stretches the shape along the WORLD axes, not along its own — right "
+                                                  "only for unrotated poses or equal sizes" % (u(c)[:70], "columns" if scales_columns else "rows", r[0] + "[:3, :3]", ".T" if r[1] else "", u(base)))
+                    break
